@@ -31,6 +31,7 @@ func init() {
 			{Name: "sleep-under-lock", File: "bfe_balance/bal_gslb/bal_gslb.go", Old: "	hashKey := bal.getHashKey(req)\n", New: "	hashKey := bal.getHashKey(req)\n	if len(hashKey) == 0 {\n		time.Sleep(time.Millisecond)\n	}\n", Expect: "blocking-under-lock"},
 			{Name: "unbounded-walk", File: "bfe_balance/bal_gslb/bal_gslb.go", Old: "	for i := 0; i < len(bal.subClusters); i++ {\n		subCluster = bal.subClusters[i]\n		if subCluster.weight <= 0 {\n			continue\n		}", New: "	for i := 0; w >= 0; i = (i + 1) % len(bal.subClusters) {\n		subCluster = bal.subClusters[i]\n		if subCluster.weight <= 0 {\n			continue\n		}", Expect: "loop-form"},
 			{Name: "simple-latch-weakened", File: "bfe_balance/bal_slb/bal_rr.go", Old: "		if avail && backendRR.weight != 0 {\n			allBackendDown = false", New: "		if avail && (backendRR.weight != 0 || backendRR.inSlowStart) {\n			allBackendDown = false", Expect: "simple-latch"},
+			{Name: "cursor-kept-across-reload", File: "bfe_balance/bal_slb/bal_rr.go", Old: "	brr.backends = backendsNew\n	brr.sorted = false\n	brr.next = 0\n}", New: "	brr.backends = backendsNew\n	brr.sorted = false\n	if brr.next > len(backendsNew) {\n		brr.next = 0\n	}\n}", Expect: "cursor-in-range"},
 			{Name: "table-lookup-unlocked", File: "bfe_balance/bal_table.go", Old: "func (t *BalTable) lookup(clusterName string) (*bal_gslb.BalanceGslb, error) {", New: "func (t *BalTable) LookupFast(clusterName string) *bal_gslb.BalanceGslb {\n	return t.balTable[clusterName]\n}\n\nfunc (t *BalTable) lookup(clusterName string) (*bal_gslb.BalanceGslb, error) {", Expect: "guarded-by"},
 		},
 	})
@@ -401,6 +402,78 @@ func runC05(c *core.Ctx) {
 		})
 	}
 	c.Min("index-site", 4)
+	// cursor invariant behind the reviewed `backends[next]` site: brr.next < len(brr.backends).
+	// Every store that replaces brr.backends must be followed, on every path to return, by
+	// next = 0; any other store to next must be 0 or a moveToNext(...) result (which wraps).
+	if nf, ok := c.P.Obj(slb, "BalanceRR.next").(*types.Var); ok {
+		bf, _ := c.P.Obj(slb, "BalanceRR.backends").(*types.Var)
+		allF := c.P.SrcFuncs("")
+		for i, st := range core.FieldStores(allF, bf) {
+			bad := core.MustPass(st.Fn, st.Store, func(x ssa.Instruction) bool {
+				s2, ok := x.(*ssa.Store)
+				if !ok {
+					return false
+				}
+				fa, ok := s2.Addr.(*ssa.FieldAddr)
+				return ok && core.FieldObj(fa.X, fa.Field) == nf && isZero(s2.Val)
+			})
+			c.Check("cursor-in-range", fmt.Sprintf("%s:backends-store#%d", core.FuncKey(st.Fn), i), st.Store.Pos(), bad == nil,
+				"BalanceRR.backends is replaced and a path reaches return without resetting the scan cursor (next = 0): simpleBalance indexes backends[next] without a bound test, so a shorter list makes it panic while holding the balancer lock")
+		}
+		for i, st := range core.FieldStores(allF, nf) {
+			ok := isZero(st.Store.Val)
+			if !ok {
+				// phi of {0, moveToNext(...), loads of brr.next}
+				ok = true
+				seen := map[ssa.Value]bool{}
+				var walk func(v ssa.Value)
+				walk = func(v ssa.Value) {
+					if seen[v] {
+						return
+					}
+					seen[v] = true
+					switch x := v.(type) {
+					case *ssa.Phi:
+						for _, e := range x.Edges {
+							walk(e)
+						}
+					case *ssa.Const:
+						if !isZero(x) {
+							ok = false
+						}
+					case *ssa.Call:
+						if !core.CallIs(&x.Call, slb+".moveToNext") {
+							ok = false
+						}
+					case *ssa.UnOp:
+						if core.Render(x) != "brr.next" {
+							ok = false
+						}
+					default:
+						ok = false
+					}
+				}
+				walk(st.Store.Val)
+			}
+			c.Check("cursor-in-range", fmt.Sprintf("%s:next-store#%d", core.FuncKey(st.Fn), i), st.Store.Pos(), ok, "BalanceRR.next is assigned "+core.Render(st.Store.Val)+", which is neither 0 nor a wrapped moveToNext(...) position")
+		}
+		c.Min("cursor-in-range", 4)
+		if mv := c.P.Func(slb, "moveToNext"); mv != nil {
+			wraps := false
+			for _, r := range core.Returns(mv) {
+				if phi, isPhi := r.Results[0].(*ssa.Phi); isPhi {
+					for _, e := range phi.Edges {
+						if isZero(e) {
+							wraps = true
+						}
+					}
+				}
+			}
+			c.Check("cursor-in-range", "moveToNext:wraps", mv.Pos(), wraps, "moveToNext must wrap to 0 when the incremented position reaches len(backends)")
+		} else {
+			c.Missing(slb + ".moveToNext")
+		}
+	}
 	// emptiness gate in SubCluster.balance
 	if f := c.P.Func(gslb, "SubCluster.balance"); f != nil {
 		for _, ci := range core.Calls(f, slb+".BalanceRR.Balance") {
